@@ -171,6 +171,27 @@ func genC17() {
 	// log statements do not matter to the transliteration
 	facts["c17_gcStaleCp"] = c17StripLogs(closure)
 	facts["c17_gc_live_ids"] = live
+	// the control flow around the closure (collection of the live ids: which nodes are asked,
+	// what happens when one cannot be reached; which output clients gc runs on), statement by
+	// statement up to the storage gc, the closure itself replaced by a placeholder
+	var frame []string
+	for _, st := range gc.Body.List {
+		if as, ok := st.(*ast.AssignStmt); ok && len(as.Lhs) == 1 {
+			if id, ok := as.Lhs[0].(*ast.Ident); ok {
+				if id.Name == "gcStaleStorer" {
+					break
+				}
+				if id.Name == "gcStaleCp" {
+					frame = append(frame, "gcStaleCp := <closure>")
+					continue
+				}
+			}
+		}
+		if t := c17StripLogs(c17Print(fset, st)); t != "" {
+			frame = append(frame, t)
+		}
+	}
+	facts["c17_gc_frame"] = frame
 
 	// ---- syncer/bisync.go flush constants
 	_, fs := parseFile("syncer/bisync.go")
